@@ -293,7 +293,7 @@ def gen_amp_doc(rng: random.Random, n_lines=None, partial=True, cartesian=None, 
                 d2 = ["D", r2, None, None, []] if part else two_body(rng, r2)
                 if part and r2 not in sublines:
                     pass
-                wave = rng.choice([None, "D"]) if nm in ("K(1)(1270)bar-", "a(1)(1260)+") else None
+                wave = rng.choice([None, "D"]) if (nm in ("K(1)(1270)bar-", "a(1)(1260)+") and r2 in RES_V) else None
                 ls3 = rng.choice([None, "GSpline.EFF"])
                 doc.append(["line", ["D", nm, wave, ls3, [d2, ["D", b, None, None, []]]]] + coupling(rng))
     if params:
